@@ -36,6 +36,79 @@ RND = z3.Function("rnd", z3.RealSort(), z3.IntSort())
 BOR = z3.Function("bor", z3.IntSort(), z3.IntSort(), z3.IntSort())
 
 
+def _pow2_exp(t):
+  """If t is (the real image of) a pure power of two, return its exponent term, else None."""
+  if z3.is_app(t):
+    n = t.decl().name()
+    if n in ("pow2", "ipow2") and t.num_args() == 1:
+      return t.arg(0)
+    if t.decl().kind() == z3.Z3_OP_TO_REAL:
+      return _pow2_exp(t.arg(0))
+  if z3.is_int_value(t):
+    v = t.as_long()
+    if v > 0 and (v & (v - 1)) == 0:
+      return z3.IntVal(v.bit_length() - 1)
+  if z3.is_rational_value(t):
+    nu, de = t.numerator_as_long(), t.denominator_as_long()
+    if nu == 1 and de > 0 and (de & (de - 1)) == 0:
+      return z3.IntVal(-(de.bit_length() - 1))
+    if de == 1 and nu > 0 and (nu & (nu - 1)) == 0:
+      return z3.IntVal(nu.bit_length() - 1)
+  return None
+
+
+def _factors(t, out):
+  if z3.is_app(t) and t.decl().kind() == z3.Z3_OP_MUL:
+    for c in t.children():
+      _factors(c, out)
+  elif z3.is_app(t) and t.decl().kind() == z3.Z3_OP_TO_REAL and z3.is_app(t.arg(0)) and t.arg(0).decl().kind() == z3.Z3_OP_MUL:
+    for c in t.arg(0).children():
+      _factors(z3.ToReal(c), out)
+  else:
+    out.append(t)
+
+
+def pow2_inverse(t):
+  """1/t as a pow2 monomial when every factor of t is a power of two."""
+  fs = []
+  _factors(t, fs)
+  tot = None
+  for f in fs:
+    e = _pow2_exp(f)
+    if e is None:
+      return None
+    tot = e if tot is None else tot + e
+  return POW2(z3.simplify(-tot))
+
+
+def mul_norm(a, b):
+  """a * b with all power-of-two factors merged into one pow2(sum of exponents)
+  (2^s * 2^t = 2^(s+t): the scale normalisation of DESIGN 2.5)."""
+  fs = []
+  _factors(a, fs)
+  _factors(b, fs)
+  exps = [(_pow2_exp(f), f) for f in fs]
+  pw = [e for e, f in exps if e is not None and not (z3.is_int_value(f) or z3.is_rational_value(f))]
+  if len(pw) < 2 and not (len(pw) == 1 and any(e is not None and (z3.is_int_value(f) or z3.is_rational_value(f)) for e, f in exps)):
+    return a * b if a.sort() == b.sort() else (z3.ToReal(a) if a.sort() == z3.IntSort() else a) * (z3.ToReal(b) if b.sort() == z3.IntSort() else b)
+  tot = None
+  rest = []
+  for e, f in exps:
+    if e is not None:
+      tot = e if tot is None else tot + e
+    else:
+      rest.append(f if f.sort() == z3.RealSort() else z3.ToReal(f))
+  tot = z3.simplify(tot)
+  if z3.is_int_value(tot) and tot.as_long() == 0:
+    p = z3.RealVal(1)
+  else:
+    p = POW2(tot)
+  r = p
+  for f in rest:
+    r = f * r
+  return r
+
+
 class Env(object):
 
   def __init__(self, parent=None, module=None, func=None):
@@ -1081,10 +1154,18 @@ class Interp(object):
         e = ea - eb
         g = ga - gb if has_g else None
       else:
-        e = ea * eb
-        g = (ga * R(eb) + gb * R(ea)) if has_g else None
+        e = mul_norm(ea, eb)
+        g = (mul_norm(ga, R(eb)) + mul_norm(gb, R(ea))) if has_g else None
       return SNum(z3.simplify(e), pt, None if g is None else z3.simplify(g))
     if isinstance(op, ast.Div):
+      inv = pow2_inverse(eb)
+      if inv is not None:
+        # division by a power of two 2^t is multiplication by 2^-t (never zero)
+        e = mul_norm(R(ea), inv)
+        g = mul_norm(ga, inv) if has_g else None
+        if pt != "tensor":
+          pt = "float"
+        return SNum(z3.simplify(e), pt, None if g is None else z3.simplify(g))
       if pt != "tensor":
         if self.branch(eb == 0):
           raise PyRaise("ZeroDivisionError", ())
